@@ -1,5 +1,217 @@
-// placeholder until the Patlak driver is written
-#include <cstdio>
+// C05 driver, Patlak objective function: PoissonLogLikelihoodWithLinearKineticModelAndDynamicProjectionData (a linear
+// two-parameter kinetic model over F time frames, each frame a PoissonLogLikelihoodWithLinearModelForMeanAndProjData)
+// on the explicit-matrix seam.  The model matrix M (2 x F, small integers) is given to the real PatlakPlot object
+// through set_model_matrix(), so the chain  theta -> lambda_f = M[1][f] theta_1 + M[2][f] theta_2 -> P lambda_f + a_f
+// is exact, and so are value and gradient  d/dtheta_k = SUM_f M[k][f] P^T(y_f/d_f - n).
+// No property formula, no expected value, no comparison here: TLC (Trace_PoissonLLPatlak.tla) decides.
+//
+//   (mode "patlak" of the c05_poissonll executable)  patlak <out.ndjson> <scratch-dir> <num-instances>
+#include "c05_seam.h"
+#include "stir/recon_buildblock/PoissonLogLikelihoodWithLinearKineticModelAndDynamicProjectionData.h"
+#include "stir/modelling/ParametricDiscretisedDensity.h"
+#include "stir/modelling/PatlakPlot.h"
+#include "stir/modelling/ModelMatrix.h"
+#include "stir/DynamicProjData.h"
+#include "stir/TimeFrameDefinitions.h"
+using namespace stir;
+using namespace c05;
+
 namespace c05patlak {
-int entry(int, char**) { fprintf(stderr, "patlak mode not available\n"); return 2; }
+
+typedef ParametricVoxelsOnCartesianGrid PImg;
+typedef PoissonLogLikelihoodWithLinearKineticModelAndDynamicProjectionData<PImg> KLL;
+// the class is configured by parsing only: a derived class sets the protected members
+class KOF : public KLL {
+public:
+  void configure(const shared_ptr<DynamicProjData>& y, const shared_ptr<DynamicProjData>& a, const shared_ptr<ProjectorByBinPair>& pp,
+                 const shared_ptr<BinNormalisation>& n, const shared_ptr<PatlakPlot>& pk, int maxseg, bool zero) {
+    this->_dyn_proj_data_sptr = y;
+    this->_additive_dyn_proj_data_sptr = a;
+    this->_projector_pair_ptr = pp;
+    this->_normalisation_sptr = n;
+    this->_patlak_plot_sptr = pk;
+    this->_max_segment_num_to_process = maxseg;
+    this->_zero_seg0_end_planes = zero;
+  }
+  int resolved_max_seg() const { return this->_max_segment_num_to_process; }
+};
+
+static void put_pimage(vh::Json& j, const PImg& im, int k) {
+  // two arrays: parameter 1 and parameter 2 per voxel, in the voxel order of vh::xm_voxels
+  std::vector<long long> o1, o2;
+  bool exact = true;
+  for (int z = im.get_min_index(); z <= im.get_max_index(); ++z)
+    for (int y = im[z].get_min_index(); y <= im[z].get_max_index(); ++y)
+      for (int x = im[z][y].get_min_index(); x <= im[z][y].get_max_index(); ++x)
+        for (int p = 1; p <= 2; ++p) {
+          const double sc = std::ldexp((double)im[z][y][x][p], k);
+          const long long q = std::llround(sc);
+          if ((double)q != sc) exact = false;
+          (p == 1 ? o1 : o2).push_back(q);
+        }
+  j.num("k", k).boolean("ex", exact).arr("out1", o1).arr("out2", o2);
+}
+
+static void run(vh::Trace& tr, const Sys& s, const Matrix& m, vh::Rng& rng, Opts o) {
+  const int F = rng.range(2, 3);
+  const int nv = (int)s.vox.size(), nb = (int)s.bins.size();
+  // model matrix (integers 1..3, one 0 allowed in the second row) and parameters
+  std::vector<int> M1(F), M2(F), th1(nv), th2(nv);
+  for (int f = 0; f < F; ++f) { M1[f] = rng.range(1, 3); M2[f] = rng.range(0, 2); }
+  for (int v = 0; v < nv; ++v) { th1[v] = rng.range(0, 2); th2[v] = rng.range(1, 2); }
+  // per frame: image lambda_f, additive a_f, data y_f = r d^2; efficiencies common to all frames
+  Inst base;
+  base.o = o;
+  std::vector<Inst> fr(F);
+  for (int f = 0; f < F; ++f) {
+    Inst in;
+    in.o = o;
+    for (int v = 0; v < nv; ++v) { in.lam.push_back(M1[f] * th1[v] + M2[f] * th2[v]); in.x.push_back(0); }
+    for (int b = 0; b < nb; ++b) {
+      int pl = 0;
+      for (auto& e : m.rows[b]) pl += e.second * in.lam[e.first - 1];
+      int a = o.additive ? rng.range(0, 3) : 0;
+      if (o.family != 0) { int p = 1; while (p < pl + a) p *= 2; a = (pl + a == 0) ? 0 : p - pl; }   // power-of-two means (value)
+      const int d = pl + a, r = rng.range(0, 2);
+      in.a.push_back(a);
+      in.y.push_back(r * d * d);
+      in.e.push_back(0);
+      in.e1.push_back(0);
+    }
+    fr[f] = in;
+  }
+  {
+    Inst effs = make_inst(s, m, rng, o);   // only its efficiencies are used
+    for (int f = 0; f < F; ++f) { fr[f].e = effs.e; fr[f].e1 = effs.e1; }
+  }
+  if (o.family != 0 && !o.additive) return;   // (not generated)
+
+  shared_ptr<ExamInfo> dexam(new ExamInfo);
+  dexam->imaging_modality = ImagingModality::PT;
+  std::vector<std::pair<double, double>> ft;
+  for (int f = 0; f < F; ++f) ft.push_back({ 10. * f, 10. * (f + 1) });
+  TimeFrameDefinitions tfd(ft);
+  dexam->set_time_frame_definitions(tfd);
+  shared_ptr<DynamicProjData> yd(new DynamicProjData(dexam, F)), ad;
+  if (o.additive) ad.reset(new DynamicProjData(dexam, F));
+  for (int f = 0; f < F; ++f) {
+    std::vector<float> yf(fr[f].y.begin(), fr[f].y.end()), af(fr[f].a.begin(), fr[f].a.end());
+    yd->set_proj_data_sptr(make_pd(s, s.t.proj_data_info, yf, false), f + 1);
+    if (o.additive) ad->set_proj_data_sptr(make_pd(s, s.t.proj_data_info, af, false), f + 1);
+  }
+  shared_ptr<RecNorm> rec;
+  Opts on = o;
+  on.wrapnorm = false;
+  fr[0].o = on;
+  shared_ptr<BinNormalisation> norm = make_norm(s, fr[0], &rec);
+  shared_ptr<vh::ExplicitProjMatrix> pm;
+  shared_ptr<ProjectorByBinPair> pp = vh::make_explicit_projector_pair(m.data, shared_ptr<vh::XmObserver>(), &pm);
+  pm->enable_cache(o.cache);
+
+  shared_ptr<PatlakPlot> pk(new PatlakPlot);
+  pk->_starting_frame = 1;
+  pk->_frame_defs = tfd;
+  pk->_in_correct_scale = true;
+  {
+    BasicCoordinate<2, int> lo, hi;
+    lo[1] = 1; lo[2] = 1; hi[1] = 2; hi[2] = F;
+    Array<2, float> arr(IndexRange<2>(lo, hi));
+    for (int f = 0; f < F; ++f) { arr[1][f + 1] = (float)M1[f]; arr[2][f + 1] = (float)M2[f]; }
+    ModelMatrix<2> mm;
+    mm.set_model_array(arr);
+    mm.set_is_in_correct_scale(true);
+    pk->set_model_matrix(mm);
+  }
+
+  // target: two parameters per voxel
+  shared_ptr<PImg> theta(new PImg(ParametricVoxelsOnCartesianGridBaseType(s.t.exam_info, s.t.image->get_index_range(), s.t.image->get_origin(),
+                                                                           dynamic_cast<const VoxelsOnCartesianGrid<float>&>(*s.t.image).get_grid_spacing())));
+  {
+    size_t i = 0;
+    for (int z = theta->get_min_index(); z <= theta->get_max_index(); ++z)
+      for (int y = (*theta)[z].get_min_index(); y <= (*theta)[z].get_max_index(); ++y)
+        for (int x = (*theta)[z][y].get_min_index(); x <= (*theta)[z][y].get_max_index(); ++x, ++i) {
+          (*theta)[z][y][x][1] = (float)th1[i];
+          (*theta)[z][y][x][2] = (float)th2[i];
+        }
+  }
+
+  KOF of;
+  of.configure(yd, ad, pp, norm, pk, o.maxseg, o.zero);
+  of.set_num_subsets(o.N);
+  of.set_use_subset_sensitivities(o.uss);
+  // (the class re-declares set_recompute_sensitivity without defining it: call the base class's)
+  static_cast<PoissonLogLikelihoodWithLinearModelForMean<PImg>&>(of).set_recompute_sensitivity(true);
+
+  emit_system(tr, m);
+  std::vector<std::vector<int>> ys, as, lams;
+  for (int f = 0; f < F; ++f) { ys.push_back(fr[f].y); as.push_back(fr[f].a); lams.push_back(fr[f].lam); }
+  tr.emit(vh::Json("Instance").boolean("patlak", true).num("sys", m.id).boolean("tof", s.tof).num("F", F).arr("M1", M1).arr("M2", M2)
+              .boolean("additive", o.additive).str("norm", norm_names[o.norm]).boolean("zero", o.zero).num("maxSegAsked", o.maxseg)
+              .boolean("uss", o.uss).num("N", o.N).boolean("cache", o.cache).num("family", o.family)
+              .arr("th1", th1).arr("th2", th2).arr2("y", ys).arr2("a", as).arr("ef", fr[0].e));
+  std::string msg;
+  bool ok = false;
+  const bool err = vh::threw([&] { ok = of.set_up(theta) == Succeeded::yes; }, &msg);
+  vh::Json js("SetUp");
+  js.boolean("err", err).boolean("ok", ok).num("maxSeg", of.resolved_max_seg());
+  if (err) js.str("msg", msg.substr(0, 160));
+  tr.emit(js);
+  if (err || !ok) return;
+
+  std::vector<Req> reqs;
+  for (int sub = -1; sub < o.N; ++sub) {
+    reqs.push_back(Req{ Value, sub, false });
+    reqs.push_back(Req{ Grad, sub, false });
+    reqs.push_back(Req{ Sens, sub, false });
+    if (sub >= 0) reqs.push_back(Req{ GradPlusSens, sub, false });
+  }
+  for (size_t i = reqs.size(); i > 1; --i) std::swap(reqs[i - 1], reqs[rng.next() % i]);
+  PoissonLogLikelihoodWithLinearModelForMean<PImg>& base_of = of;
+  for (const Req& q : reqs) {
+    vh::Json j(kind_names[q.kind]);
+    j.num("sub", q.sub).boolean("pen", false);
+    shared_ptr<PImg> out(theta->get_empty_copy());
+    std::fill(out->begin_all(), out->end_all(), 0.F);
+    double val = 0;
+    std::string m2;
+    const bool e2 = vh::threw([&] {
+      switch (q.kind) {
+      case Value: val = q.sub < 0 ? of.compute_objective_function_without_penalty(*theta) : of.compute_objective_function_without_penalty(*theta, q.sub); break;
+      case Grad: if (q.sub < 0) of.compute_gradient_without_penalty(*out, *theta); else of.compute_sub_gradient_without_penalty(*out, *theta, q.sub); break;
+      case GradPlusSens: of.compute_sub_gradient_without_penalty_plus_sensitivity(*out, *theta, q.sub); break;
+      default: *out = q.sub < 0 ? base_of.get_sensitivity() : base_of.get_subset_sensitivity(q.sub); break;
+      }
+    }, &m2);
+    j.boolean("err", e2);
+    if (e2) j.str("msg", m2.substr(0, 120));
+    if (q.kind == Value) j.num("k", 10).num("val", e2 ? 0 : std::llround(std::ldexp(val, 10)));
+    else put_pimage(j, *out, 4);
+    tr.emit(j);
+  }
+}
+
+int entry(int argc, char** argv) {
+  if (argc < 5) { fprintf(stderr, "usage: patlak <out.ndjson> <scratch-dir> <count>\n"); return 2; }
+  const long count = atol(argv[4]);
+  vh::Trace tr(argv[2]);
+  vh::Rng rng(vh::seed_from_env());
+  Sys sys = make_sys(false);
+  Matrix m;
+  for (long i = 0; i < count; ++i) {
+    Opts o;
+    o.family = rng.range(0, 2) == 0 ? 1 : 0;
+    o.additive = o.family == 1 ? true : rng.coin();
+    o.norm = rng.range(0, 4);
+    o.zero = rng.coin();
+    o.maxseg = rng.range(-1, 2);
+    o.N = rng.range(1, 4);
+    o.uss = o.N == 3 ? true : rng.coin();
+    o.cache = rng.range(0, 3) != 0;
+    if (!m.data || rng.range(0, 5) == 0) m = make_matrix(tr, sys, rng, 2, 2, true);
+    run(tr, sys, m, rng, o);
+  }
+  tr.emit(vh::Json("End").num("lines", tr.lines));
+  return 0;
+}
 } // namespace c05patlak
